@@ -187,7 +187,7 @@ def generate(ctx):
             yield "sdl", {"seq": seq, "mode": "npartitions", "n": n}
             yield "sdl", {"seq": seq, "mode": "chunksize", "n": n}
     # random longer sequences, three value kinds
-    for _ in range(ctx.n(400, 6000)):
+    for _ in range(ctx.n(300, 6000)):
         ln = rng.randint(1, 60)
         hi = rng.choice([2, 3, 5, 10, 24])
         seq = sorted(rng.randint(0, hi) for _ in range(ln))
@@ -199,7 +199,7 @@ def generate(ctx):
         ln = rng.randint(1, 25)
         seq = sorted(rng.randint(0, rng.choice([3, 8, 30])) for _ in range(ln))
         yield "from_pandas", {"seq": seq, "mode": rng.choice(["npartitions", "chunksize"]), "n": rng.randint(1, ln + 1)}
-    for _ in range(ctx.n(300, 3000)):
+    for _ in range(ctx.n(200, 3000)):
         nv = rng.randint(1, 14)
         vals = sorted(rng.sample(range(60), nv))
         weights = [rng.choice([0.5, 1.0, 2.0, 3.5, 10.0, 40.0]) for _ in vals]
